@@ -387,6 +387,13 @@ func (r *DRun) invariants(at int, hostile bool) {
 		r.failf(at, "struct-invariant", "R-out-of-range", "R=%d outside [0,len(Data)=%d]", b.R, len(b.Data))
 		return
 	}
+	if un := len(r.model.Unread()); len(b.Data)-b.R != un && r.owned["count-n"] && !hostile {
+		// the calls so far reported counts that add up to un unread bytes
+		// (the model follows the reported counts), the buffer holds another
+		// number: a call appended more or fewer bytes than it reported
+		r.failf(at, "count-n", "unread-length", "the buffer holds %d unread bytes, the counts reported by the calls so far add up to %d", len(b.Data)-b.R, un)
+		return
+	}
 	if !bytes.Equal(b.Data[b.R:], r.model.Unread()) {
 		r.failf(at, contentCheck, class, "unread bytes Data[R:] (%d bytes) differ from the %d unread bytes of the reference stream", len(b.Data)-b.R, len(r.model.Unread()))
 		return
@@ -1004,6 +1011,46 @@ func (r *DRun) stepDecoder(i int, op *DOp) {
 			scribble(la)
 			for j := range sa {
 				sa[j] = lz.Seq{LitLen: 0xdead, MatchLen: 0xbeef, Offset: 1}
+			}
+			if r.fail != nil && r.fail.Check == "count-k-l" && !r.owned["count-k-l"] && r.owned["writer-prefix"] && bad < 0 &&
+				w.failedInCall && err == w.lastErr && 0 <= k && k <= len(seqs) && 0 <= l && l <= len(lits) {
+				// the reported (k, l) are not a consistent account of what was
+				// consumed (the business of C17). The exactly-once promise is
+				// about a caller who follows the retry protocol to the letter:
+				// it retries Sequences[k:], Literals[l:] whatever they denote.
+				// The reference is then the complete expansion of the block.
+				r.fail = nil
+				full, xerr := ref.Expand(append([]byte(nil), m.Out[:pre]...), seqs, lits)
+				if xerr != nil {
+					return
+				}
+				m.Out = full
+				st.Inc("retries_with_inconsistent_counts_followed_literally")
+				for try2 := 0; ; try2++ {
+					r.prefixCheck(i)
+					if r.fail != nil || try2 > maxRetry {
+						return
+					}
+					seqs, lits = seqs[k:], lits[l:]
+					la := callerCopy(lits)
+					sa := append([]lz.Seq(nil), seqs...)
+					if !r.decCall(i, "WriteBlock", len(lits)+64, func() { n, k, l, err = d.WriteBlock(lz.Block{Sequences: sa, Literals: la}) }) || !r.surfaced(i, "WriteBlock", err) {
+						return
+					}
+					scribble(la)
+					if err == nil {
+						break
+					}
+					if !w.failedInCall || err != w.lastErr {
+						r.failf(i, errCheck(w, err), "Decoder.WriteBlock-error", "Decoder.WriteBlock returned %v on a retry (writer failed in call: %v)", err, w.failedInCall)
+						return
+					}
+					if k < 0 || k > len(seqs) || l < 0 || l > len(lits) {
+						return
+					}
+					st.Inc("calls_with_writer_fault")
+				}
+				break
 			}
 			if r.fail != nil {
 				return
